@@ -38,7 +38,7 @@ struct ImageDamage : Family {
 		p.world.push_back(t);
 		// one picture world in eight is LARGE: its pixel section lies on or next to a multiple of 128 KiB .. 1 MiB, and it is swept at
 		// selected crash points only (around the end and around every 64 KiB multiple)
-		bool large = kind != "prt" && r.chance(1, 8);
+		bool large = r.chance(1, 8);
 		static const uint64_t BLK[] = {131072, 262144, 1048576, 1048576};
 		if (kind == "bmp") {
 			static const int BITS[] = {1, 4, 8};
@@ -65,7 +65,9 @@ struct ImageDamage : Family {
 		} else {
 			Line w = mkline("world", "prt");
 			uint64_t npal = r.range(1, 2);
-			w.set("seed", hex64(r.next())).set("npal", npal).set("nimg", r.below(5)).set("nanim", r.below(4)).set("canonical", 1);
+			w.set("seed", hex64(r.next())).set("npal", npal).set("nimg", r.below(5)).set("nanim", large ? r.range(1, 3) : r.below(4)).set("canonical", 1);
+			// LARGE: a size-prefixed list of more than a megabyte (image records, or one animation's trailing container)
+			if (large) { if (r.chance(1, 2)) w.set("hugeimg", r.range(52000, 70000)); else w.set("hugeuc", r.range(65000, 80000)); p.setenv("memcap", 200 << 20); } // the harness's own field table needs room
 			p.world.push_back(w);
 		}
 		p.damage.push_back(mkline("damage", large ? "large" : "all"));
